@@ -3,6 +3,8 @@
 regenerates lean/MdkVerif/Generated.lean.  Fails loudly (exit 2, message `tie:gen:<fact>`)
 when a fact it needs is not found; never defaults silently."""
 import os, re, sys, json
+sys.path.insert(0, os.path.dirname(os.path.abspath(__file__)))
+import rsnorm
 
 REPO = os.environ.get("VERIF_REPO", "/repo")
 OUT = os.path.join(os.path.dirname(os.path.abspath(__file__)), "..", "lean", "MdkVerif", "Generated.lean")
@@ -10,14 +12,23 @@ OUT = os.path.join(os.path.dirname(os.path.abspath(__file__)), "..", "lean", "Md
 class Missing(Exception):
     pass
 
+class Src(str):
+    """the text of a library source file that remembers which file it is (so that `strip_comments` can bring it
+    into the normal form of tools/rsnorm.py with the constants and helper functions of its file and crate)"""
+    rel = None
+
+def _src(text, rel):
+    s = Src(text); s.rel = rel
+    return s
+
 def read(rel):
     p = os.path.join(REPO, rel)
     try:
-        return open(p, encoding="utf-8").read()
+        return _src(open(p, encoding="utf-8").read(), rel)
     except OSError:
         raise Missing(f"file:{rel}")
 
-def strip_comments(src):
+def strip_comments_raw(src):
     # remove // line comments and /* */ block comments, keep string literals intact
     out, i, n = [], 0, len(src)
     while i < n:
@@ -37,23 +48,112 @@ def strip_comments(src):
             out.append(c); i += 1
     return "".join(out)
 
+def strip_comments(src):
+    """comments removed; for a file of one of the library's crates also CONSTANTS INLINED (rsnorm.inline_consts: string /
+    byte-string / integer const and static items of the file, then of its crate, substituted at their use sites)"""
+    text = strip_comments_raw(src)
+    rel = getattr(src, "rel", None)
+    if rel and rel.startswith("crates/") and "/src/" in rel:
+        lit, ints = crate_index(rel).consts_for(rel, text)
+        return _src(rsnorm.inline_consts(text, lit, ints), rel)
+    return text
+
 def non_test(src):
     """drop the trailing `#[cfg(test)] mod tests { … }`"""
     m = re.search(r"#\[cfg\(test\)\]\s*mod\s+tests", src)
-    return src[:m.start()] if m else src
+    return _src(src[:m.start()], getattr(src, "rel", None)) if m else src
+
+class CrateIndex:
+    """constants and functions of one crate of the library (non-test code, comments stripped)"""
+    def __init__(self, crate_dir):
+        self.files = {}
+        root = os.path.join(REPO, crate_dir, "src")
+        for d, _, fs in sorted(os.walk(root)):
+            for f in sorted(fs):
+                p = os.path.join(d, f)
+                rel = os.path.relpath(p, REPO)
+                if not f.endswith(".rs") or re.search(r"(^|/)(tests?|test_util|benches)(/|\.rs$)", os.path.relpath(p, root)):
+                    continue
+                try:
+                    self.files[rel] = rsnorm.drop_tests(strip_comments_raw(open(p, encoding="utf-8").read()))
+                except OSError:
+                    pass
+        self.consts = {}
+        for rel, text in self.files.items():
+            for k, v in rsnorm.const_defs(text).items():
+                self.consts.setdefault(k, []).append(v)
+        self._fns = None
+        self._inlined = {}
+    def consts_for(self, rel, text):
+        return rsnorm.resolve_consts(rsnorm.const_defs(text), self.consts)
+    def fns(self):
+        """{name: [fn item of the const-inlined text of its file]}"""
+        if self._fns is None:
+            self._fns = {}
+            for rel, text in self.files.items():
+                lit, ints = self.consts_for(rel, text)
+                for f in rsnorm.fn_items(rsnorm.inline_consts(text, lit, ints)):
+                    self._fns.setdefault(f["name"], []).append(f)
+        return self._fns
+
+_CRATES = {}
+def crate_index(rel):
+    crate_dir = "/".join(rel.split("/")[:2])
+    if crate_dir not in _CRATES:
+        _CRATES[crate_dir] = CrateIndex(crate_dir)
+    return _CRATES[crate_dir]
+
+_BOUNDARY = None
+def boundary():
+    """the function names the extractors know: every identifier that occurs in a string literal of this file, of
+    lockshape.py or of gen_leak.py (names handed to fn_body, names in patterns).  A callee with such a name is a step of
+    the model and is read on its own; any other callee is an implementation detail and is looked through (inlined)."""
+    global _BOUNDARY
+    if _BOUNDARY is None:
+        words = set()
+        here = os.path.dirname(os.path.abspath(__file__))
+        for f in ("gen_model.py", "lockshape.py"):
+            try:
+                text = open(os.path.join(here, f), encoding="utf-8").read()
+            except OSError:
+                continue
+            for lit in re.findall(r'"(?:[^"\\\n]|\\.)*"', text) + re.findall(r"'(?:[^'\\\n]|\\.)*'", text):
+                words.update(re.findall(r"[a-z_][a-z0-9_]*", lit))
+        _BOUNDARY = words
+    return _BOUNDARY
+
+_FN_CACHE = {}
+def _fn_items(src):
+    key = (len(src), hash(src))
+    if key not in _FN_CACHE:
+        _FN_CACHE[key] = rsnorm.fn_items(src)
+    return _FN_CACHE[key]
 
 def const_usize(src, name, fact):
     m = re.search(r"\bconst\s+" + re.escape(name) + r"\s*:\s*\w+\s*=\s*([^;]+);", src)
     if not m:
         raise Missing(fact)
     expr = m.group(1).strip().replace("_", "")
+    expr = re.sub(r"(?<=[0-9])(usize|u64|u32|u16|u8|i64|i32)\b", "", expr)
     if not re.fullmatch(r"[0-9\s\*\+\(\)]+", expr):
         raise Missing(fact + ":expr")
     return int(eval(expr))
 
-def fn_body(src, name, fact):
+def moved_fn(src, name):
+    """a function that is not (any more) in the file an extractor expects it in: its one definition elsewhere in the crate"""
+    rel = getattr(src, "rel", None)
+    if rel and rel.startswith("crates/") and "/src/" in rel:
+        cands = crate_index(rel).fns().get(name, [])
+        if len(cands) == 1:
+            return cands[0]
+    return None
+
+def fn_body_raw(src, name, fact):
     m = re.search(r"\bfn\s+" + re.escape(name) + r"\b", src)
     if not m:
+        f = moved_fn(src, name)
+        if f:
+            return f["body"]
         raise Missing(fact)
     i = src.find("{", m.end())
     depth, j = 0, i
@@ -72,6 +172,89 @@ def fn_body(src, name, fact):
                     return src[i:j + 1]
         j += 1
     raise Missing(fact + ":braces")
+
+def helper_lookup(src):
+    """resolver for rsnorm.inline_helpers: a callee defined exactly once in this text, else exactly once in the crate"""
+    local = {}
+    for f in _fn_items(src):
+        local.setdefault(f["name"], []).append(f)
+    rel = getattr(src, "rel", None)
+    crate = crate_index(rel).fns() if rel and rel.startswith("crates/") and "/src/" in rel else {}
+    def lookup(name, prefix):
+        cands = local.get(name) or crate.get(name) or []
+        if len(cands) != 1:
+            return None
+        f = cands[0]
+        if prefix == "self." and not f["has_self"]:
+            return None
+        if prefix != "self." and not prefix.startswith("Self::") and f["has_self"]:
+            return None
+        return f
+    return lookup
+
+def fn_body(src, name, fact):
+    """the body of `fn name` with HELPERS INLINED (rsnorm.inline_helpers: the body of every callee the extractors do not
+    know by name is inserted after its call, parameters replaced by the arguments, depth <= 3) and format strings in
+    positional form"""
+    body = fn_body_raw(src, name, fact)
+    return rsnorm.positional_fmt(rsnorm.inline_helpers(body, helper_lookup(src), boundary(), stack=(name,)))
+
+def squash(text):
+    """whitespace collapsed; none around the `.` of a method chain, inside parentheses, before `,` `;` `?`"""
+    t = re.sub(r"\s+", " ", text)
+    t = re.sub(r" ?\.(?=[A-Za-z_])(?<!\.\.)", ".", t)
+    t = re.sub(r"([(\[]) ", r"\1", t)
+    t = re.sub(r" ([)\],;?])", r"\1", t)
+    t = re.sub(r",([)\]])", r"\1", t)          # trailing comma of an argument list
+    return t
+
+def flat(body):
+    """LOCALS INLINED (rsnorm.inline_lets) and whitespace squashed: patterns over this text talk about expressions,
+    not about the names of locals"""
+    return squash(rsnorm.inline_lets(rsnorm.unify_strings(body)))
+
+def fn_params(src, name, fact):
+    """[(name, type)] of the parameters (without self) of the first `fn name`"""
+    for f in _fn_items(src):
+        if f["name"] == name:
+            return f["params"]
+    f = moved_fn(src, name)
+    if f:
+        return f["params"]
+    raise Missing(fact + ":params")
+
+def param_of_type(src, name, type_re, fact):
+    ps = [p for p, t in fn_params(src, name, fact) if p and re.fullmatch(type_re, t)]
+    if len(ps) != 1:
+        raise Missing(fact + ":param:" + type_re)
+    return ps[0]
+
+def at(pat, text):
+    """position of the first match of a pattern (-1: none)"""
+    m = re.search(pat, text)
+    return m.start() if m else -1
+
+def calls(body, callee_re):
+    """[(position, [argument texts])] of the calls `<callee_re>(…)` in body"""
+    res = []
+    for m in re.finditer(r"(?<![\w])(?:" + callee_re + r")\s*\(", body):
+        cl = rsnorm.match_close(body, m.end() - 1, "(", ")")
+        if cl > 0:
+            res.append((m.start(), [re.sub(r"\s+", " ", a) for a in rsnorm.split_top(body[m.end():cl])]))
+    return res
+
+def const_lit(src, name, fact):
+    """the literal text (`"…"`, `b"…"`, integer) of a const / static of src's file or crate, aliases followed"""
+    rel = getattr(src, "rel", None)
+    if rel:
+        lit, _ = crate_index(rel).consts_for(rel, rsnorm.drop_tests(strip_comments_raw(read(rel))))
+        if name in lit:
+            return lit[name]
+    raise Missing(fact)
+
+def arms_of(body):
+    """the body with `matches!` turned into `match` and OR-PATTERNS EXPANDED into one arm per alternative"""
+    return rsnorm.expand_matches(body)
 
 def strings(body):
     res = []
@@ -113,13 +296,20 @@ def wrap_facts(facts, nat, boolean, strlist):
     dec = strip_comments(non_test(read("crates/mdk-core/src/messages/decryption.rs")))
     recent = fn_body(dec, "try_decrypt_with_recent_epochs", "fn:try_decrypt_with_recent_epochs")
     past = fn_body(dec, "try_decrypt_with_past_epochs", "fn:try_decrypt_with_past_epochs")
+    # the past-epoch window, over EXPRESSIONS (locals inlined): with cur = <group>.epoch().as_u64() and LB the u64 parameter,
+    #   refuse when cur == 0 || LB == 0;  newest = cur ⊖ 1;  oldest = newest ⊖ (LB ⊖ 1);  for e in (oldest..=newest).rev()
+    lb = re.escape(param_of_type(dec, "try_decrypt_with_past_epochs", r"u64", "fn:try_decrypt_with_past_epochs"))
+    pflat = flat(past)
+    cur = r"\w+\.epoch\(\)\.as_u64\(\)"
+    newest = cur + r"\.saturating_sub\(1\)"
+    oldest = newest + r"\.saturating_sub\(" + lb + r"\.saturating_sub\(1\)\)"
+    past_call = calls(flat(recent), r"(?:self\.)?try_decrypt_with_past_epochs")
+    lookback_arg = past_call[0][1][-1].replace("_", "") if past_call and past_call[0][1] else ""
     boolean("lookbackAsModelled",
             0 < recent.find("self.exporter_secret(") < recent.find("decrypt_with_exporter_secret(") < recent.find("try_decrypt_with_past_epochs(")
-            and "DEFAULT_EPOCH_LOOKBACK" in recent
-            and bool(re.search(r"current_epoch\s*==\s*0\s*\|\|\s*max_epoch_lookback\s*==\s*0", past))
-            and bool(re.search(r"start_epoch\s*:\s*u64\s*=\s*current_epoch\.saturating_sub\(1\)", past))
-            and bool(re.search(r"end_epoch\s*:\s*u64\s*=\s*start_epoch\.saturating_sub\(\s*max_epoch_lookback\.saturating_sub\(1\)\s*\)", past))
-            and bool(re.search(r"\(end_epoch\s*\.\.=\s*start_epoch\)\.rev\(\)", past))
+            and (lookback_arg == "DEFAULT_EPOCH_LOOKBACK" or (lookback_arg.isdigit() and int(lookback_arg) == int(facts["epochLookback"][1])))
+            and bool(re.search(r"if (?:" + cur + r" == 0 \|\| " + lb + r" == 0|" + lb + r" == 0 \|\| " + cur + r" == 0) \{ return Err", pflat))
+            and bool(re.search(r"for \w+ in \(" + oldest + r" ?\.\.= ?" + newest + r"\)\.rev\(\)", pflat))
             and "get_group_exporter_secret" in past,
             "decryption.rs: current exporter secret (exported and stored on demand) first, then the STORED secrets of epochs cur-1 down to cur-LOOKBACK (not below 0)")
     dm = fn_body(dec, "decrypt_message", "fn:decrypt_message")
@@ -138,7 +328,7 @@ def wrap_facts(facts, nat, boolean, strlist):
         nat(lean, int(f.group(1).replace("_", "")), f"mdk-core lib.rs MdkConfig::default().{field}")
     val = strip_comments(non_test(read("crates/mdk-core/src/messages/validation.rs")))
     ve = fn_body(val, "validate_event", "fn:validate_event")
-    if not re.search(r"event\.kind\s*!=\s*Kind::MlsGroupMessage", ve):
+    if not re.search(r"\w+\.kind\s*!=\s*Kind::MlsGroupMessage", ve):
         raise Missing("wrap:kind-check")
     km = re.search(r"\bMlsGroupMessage\s*=>\s*(\d+)\s*,", nostr_src("event/kind.rs"))
     if not km:
@@ -147,54 +337,90 @@ def wrap_facts(facts, nat, boolean, strlist):
     boolean("validateEventOrder", 0 < ve.find("Kind::MlsGroupMessage") < ve.find("validate_created_at"),
             "validation.rs validate_event: kind first, then the created_at window")
     vc = fn_body(val, "validate_created_at", "fn:validate_created_at")
+    # over EXPRESSIONS (locals inlined): EV = <event>.created_at.as_secs(), NOW = Timestamp::now().as_secs()
+    vflat = flat(vc)
+    ev = re.escape(param_of_type(val, "validate_created_at", r"&\s*(?:nostr::)?Event", "fn:validate_created_at")) + r"\.created_at\.as_secs\(\)"
+    now = r"Timestamp::now\(\)\.as_secs\(\)"
     boolean("createdAtWindowAsModelled",
-            bool(re.search(r"event\.created_at\.as_secs\(\)\s*>\s*now\s*\.as_secs\(\)\s*\.saturating_add\(\s*self\.config\.max_future_skew_secs\s*\)", vc))
-            and bool(re.search(r"min_timestamp\s*=\s*now\.as_secs\(\)\.saturating_sub\(\s*self\.config\.max_event_age_secs\s*\)", vc))
-            and bool(re.search(r"event\.created_at\.as_secs\(\)\s*<\s*min_timestamp", vc))
+            bool(re.search(r"if \(?" + ev + r" > \(?" + now + r"\.saturating_add\(self\.config\.max_future_skew_secs\)\)?\)? \{ return Err\(Error::InvalidTimestamp", vflat))
+            and bool(re.search(r"if \(?" + ev + r" < \(?" + now + r"\.saturating_sub\(self\.config\.max_event_age_secs\)\)?\)? \{ return Err\(Error::InvalidTimestamp", vflat))
             and vc.count("Error::InvalidTimestamp") == 2 and vc.count("Timestamp::now()") == 1,
             "validation.rs validate_created_at: refused iff created_at > now ⊕ skew (saturating) or created_at < now ⊖ max_age (saturating); one clock read")
     ex = fn_body(val, "extract_nostr_group_id", "fn:extract_nostr_group_id")
-    hl = re.search(r"group_id_hex\.len\(\)\s*!=\s*(\d+)", ex)
+    xflat = flat(ex)
+    def first(pat, text, start=0):
+        m = re.compile(pat).search(text, max(start, 0))
+        return m.start() if m else -1
+    # the steps by what they call / compare / return, not by the names of the locals
+    i_filter = first(r"filter\(\|(\w+)\| \1\.kind\(\) == TagKind::h\(\)\)", xflat)
+    i_none = first(r"\.is_empty\(\)|\.next\(\)|\.first\(\)", xflat, i_filter)
+    i_missing = xflat.find("MissingGroupIdTag")
+    i_several = first(r"\.len\(\) (?:> 1|>= 2)\b|\.count\(\) (?:> 0|>= 1|!= 0)\b|\.next\(\)\.is_some\(\)", xflat, i_missing)
+    i_multiple = xflat.find("MultipleGroupIdTags")
+    i_content = xflat.find(".content()")
+    i_decode = xflat.find("hex::decode(")
+    hl = re.search(r"\.len\(\) != (\d+)", xflat[max(i_content, 0):max(i_decode, 0)])
     if not hl:
         raise Missing("wrap:h-tag-length-check")
     nat("hTagHexLen", int(hl.group(1)), "validation.rs extract_nostr_group_id: required byte length of the h tag value")
     boolean("hTagShapeAsModelled",
-            bool(re.search(r"filter\(\s*\|tag\|\s*tag\.kind\(\)\s*==\s*TagKind::h\(\)\s*\)", ex))
-            and 0 < ex.find("h_tags.is_empty()") < ex.find("MissingGroupIdTag") < ex.find("h_tags.len() > 1") < ex.find("MultipleGroupIdTags")
-            < ex.find(".content()") < ex.find("group_id_hex.len()") < ex.find("hex::decode(group_id_hex)")
+            0 <= i_filter < i_none < i_missing < i_several < i_multiple < i_content < i_content + hl.start() < i_decode
             and ex.count("InvalidGroupIdFormat") == 4,
             "validation.rs extract_nostr_group_id: tags of kind h — none → MissingGroupIdTag, several → MultipleGroupIdTags, then value present, length, hex::decode → InvalidGroupIdFormat")
     proc = strip_comments(non_test(read("crates/mdk-core/src/messages/process.rs")))
     pm = fn_body(proc, "process_message", "fn:process_message")
-    marks = [pm.find("find_processed_message_by_event_id"), pm.find(".validate_event(event)"), pm.find("self.extract_nostr_group_id(event)"),
-             pm.find("self.decrypt_message(nostr_group_id, event)"), pm.find("self.dispatch_by_content_type(")]
+    marks = [pm.find("find_processed_message_by_event_id"), at(r"\.validate_event\s*\(", pm), at(r"\.extract_nostr_group_id\s*\(", pm),
+             at(r"\.decrypt_message\s*\(", pm), at(r"\.dispatch_by_content_type\s*\(", pm)]
     boolean("processStepOrder", all(x > 0 for x in marks) and marks == sorted(marks),
             "process.rs process_message: dedup lookup, validate_event, extract_nostr_group_id, decrypt_message, dispatch — in this order")
-    blocked = sorted(PM_STATES.index(s) for s in PM_STATES
-                     if re.search(r"let\s+\w+\s*=\s*processed\.state\s*==\s*message_types::ProcessedMessageState::" + s + r"\s*;", pm))
-    if not blocked or not re.search(r"if\s+is_failed\s*\|\|\s*is_epoch_invalidated", pm):
+    # step 0: for which states of the stored record is one of the two early results (Unprocessable / PreviouslyFailed) reached?
+    # Decided from the GUARDS on the way to them (if-conditions over `state == …::X`, booleans bound by `let`, match arms,
+    # or-patterns, matches!), whatever the locals are called and wherever the block lives (rsnorm.variants_reaching).
+    dedup = pm[:marks[1]] if marks[1] > 0 else pm
+    early = [m.start() for m in re.finditer(r"MessageProcessingResult\s*::\s*(?:Unprocessable|PreviouslyFailed)\b", dedup)]
+    reach = [rsnorm.variants_reaching(pm, pos, PM_STATES, "ProcessedMessageState") for pos in early]
+    if not early or any(r is None for r in reach) or any(set(r) != set(reach[0]) for r in reach):
+        raise Missing("wrap:dedup-blocked-states")
+    blocked = sorted(PM_STATES.index(st) for st in reach[0])
+    if not blocked:
         raise Missing("wrap:dedup-blocked-states")
     facts["dedupBlockedStates"] = ("List Nat", "[" + ", ".join(map(str, blocked)) + "]",
                                    "process.rs step 0: record states that block re-processing (0 created 1 processed 2 processed_commit 3 failed 4 epoch_invalidated 5 retryable)")
     boolean("dedupResultAsModelled",
-            0 < pm.find("extract_mls_group_id_from_event(event)") < pm.find("MessageProcessingResult::Unprocessable { mls_group_id }") < pm.find("MessageProcessingResult::PreviouslyFailed")
-            < pm.find(".validate_event(event)"),
+            0 < at(r"extract_mls_group_id_from_event\s*\(", pm) < at(r"MessageProcessingResult::Unprocessable\s*\{\s*mls_group_id\s*,?\s*\}", pm)
+            < pm.find("MessageProcessingResult::PreviouslyFailed") < marks[1],
             "process.rs step 0: a blocked event returns Unprocessable{group} when its h tag names a stored group, PreviouslyFailed otherwise")
+    # the two early failures: record_failure(<event>.id, &<error>, None, None) after validation,
+    # record_failure(<event>.id, &<error>, <group found by the h tag>.as_ref(), None) after decryption
+    rf_calls = [a for pos, a in calls(pm, r"(?:self\s*\.\s*)?record_failure") if pos < marks[4]]
+    def found_by_h_tag(arg):
+        m = re.fullmatch(r"&?\s*([a-z_]\w*)(?:\.as_ref\(\))?", arg)
+        return bool(m and re.search(r"\blet\s+" + m.group(1) + r"\s*(?::[^=;]+)?=[^;]*find_group_by_nostr_group_id[^;]*\.mls_group_id\b", pm))
     boolean("earlyFailuresRecorded",
-            len(re.findall(r"self\.record_failure\(\s*event\.id\s*,\s*&e\s*,\s*None\s*,\s*None\s*\)", pm)) == 1
-            and len(re.findall(r"self\.record_failure\(\s*event\.id\s*,\s*&e\s*,\s*mls_group_id\.as_ref\(\)\s*,\s*None\s*\)", pm)) == 1,
+            len(rf_calls) == 2 and all(len(a) == 4 and re.fullmatch(r"\w+\.id", a[0]) and re.fullmatch(r"&\s*\w+", a[1]) and a[3] == "None" for a in rf_calls)
+            and rf_calls[0][2] == "None" and found_by_h_tag(rf_calls[1][2]),
             "process.rs: a validation failure is recorded without group and epoch, a decryption failure with the group found by the h tag and without epoch")
     eh = strip_comments(non_test(read("crates/mdk-core/src/messages/error_handling.rs")))
     rf = fn_body(eh, "record_failure", "fn:record_failure")
+    rfl = flat(rf)
+    reason = re.search(r"\blet (\w+) = (?:Self::|self\.)?sanitize_error_reason\(", rfl)
     boolean("recordFailureKeepsContext",
-            bool(re.search(r"message_event_id\s*=\s*existing_record\.as_ref\(\)\.and_then\(\|r\|\s*r\.message_event_id\)", rf))
-            and bool(re.search(r"epoch\s*=\s*epoch\.or_else\(", rf)) and bool(re.search(r"\.or_else\(\|\|\s*existing_record\.and_then\(\|r\|\s*r\.mls_group_id\)\)", rf))
-            and "ProcessedMessageState::Failed" in rf and "Some(sanitized_reason.to_string())" in rf,
+            0 < rfl.find("find_processed_message_by_event_id(") < rfl.find("create_processed_message_record(")
+            and bool(re.search(r"\.and_then\(\|(\w+)\| \1\.message_event_id\)", rfl))
+            and bool(re.search(r"\.or_else\(\|\| [^;]*?\.and_then\(\|(\w+)\| \1\.epoch\)\)", rfl))
+            and bool(re.search(r"\.or_else\(\|\| [^;]*?\.and_then\(\|(\w+)\| \1\.mls_group_id\)\)", rfl))
+            and "ProcessedMessageState::Failed" in rf
+            and bool(re.search(r"Some\((?:Self::|self\.)?sanitize_error_reason\([^()]*\)\.to_string\(\)\)", rfl)
+                     or (reason and re.search(r"Some\(" + reason.group(1) + r"\.to_string\(\)\)", rfl))),
             "error_handling.rs record_failure: state Failed, sanitised reason; message id kept, epoch / group fall back to the existing record")
     fu = fn_body(eh, "fail_unprocessable", "fn:fail_unprocessable")
-    boolean("failUnprocessableAsModelled", "Some(&group.mls_group_id)" in fu and "Some(group.epoch)" in fu and "MessageProcessingResult::Unprocessable" in fu,
+    grp = re.escape(param_of_type(eh, "fail_unprocessable", r"&\s*(?:\w+::)*Group", "fn:fail_unprocessable"))
+    fu_call = calls(fu, r"(?:self\s*\.\s*)?record_failure")
+    boolean("failUnprocessableAsModelled", len(fu_call) == 1 and len(fu_call[0][1]) == 4
+            and bool(re.fullmatch(r"Some\(\s*&\s*" + grp + r"\.mls_group_id\s*\)", fu_call[0][1][2])) and bool(re.fullmatch(r"Some\(\s*" + grp + r"\.epoch\s*\)", fu_call[0][1][3]))
+            and "MessageProcessingResult::Unprocessable" in fu,
             "error_handling.rs fail_unprocessable: record_failure with the group and the stored record's epoch, result Unprocessable")
-    sz = fn_body(eh, "sanitize_error_reason", "fn:sanitize_error_reason")
+    sz = arms_of(fn_body(eh, "sanitize_error_reason", "fn:sanitize_error_reason"))
     arms = re.findall(r"Error::(\w+)\s*(?:\{[^}]*\}|\([^)]*\))?\s*=>\s*\"([^\"]+)\"", sz)
     dflt = re.search(r"\b_\s*=>\s*\"([^\"]+)\"", sz)
     if not arms or not dflt:
@@ -439,7 +665,8 @@ def main():
             "lib.rs restore_group_from_snapshot BEGIN/COMMIT/ROLLBACK")
 
     prune = fn_body(sql_lib, "prune_expired_snapshots", "fn:prune_expired_snapshots")
-    counts_rows = bool(re.search(r"let\s+deleted\s*=\s*conn\s*\.execute", prune)) and "Ok(deleted)" in prune.replace(" ", "") \
+    m_del = re.search(r"let\s+(\w+)\s*(?::[^=;]+)?=\s*\w+\s*\.\s*execute\b", prune)
+    counts_rows = bool(m_del) and bool(re.search(r"Ok\(\s*" + m_del.group(1) + r"\s*(?:as\s+usize\s*)?\)", prune)) \
         and "COUNT" not in prune.upper()
     boolean("sqlPruneCountsRows", counts_rows, "lib.rs prune_expired_snapshots returns the DELETE row count")
 
@@ -450,20 +677,26 @@ def main():
     # which match wins when several messages carry the tag: both backends pick the newest in display order
     sql_newest = any(re.search(r"ORDER BY CREATED_AT DESC,\s*PROCESSED_AT DESC,\s*ID DESC\s+LIMIT 1", re.sub(r"\s+", " ", s)) for s in ts)
     mem_tagq = fn_body(strip_comments(non_test(read("crates/mdk-memory-storage/src/messages.rs"))), "find_message_epoch_by_tag_content", "fn:find_message_epoch_by_tag_content(memory)")
-    mem_newest = "display_order_cmp" in mem_tagq and "return Ok(Some(epoch))" not in mem_tagq
+    mem_newest = "display_order_cmp" in mem_tagq and not re.search(r"return\s+Ok\s*\(\s*Some\s*\(", mem_tagq)
     boolean("tagSearchNewestWins", sql_newest and mem_newest,
             "find_message_epoch_by_tag_content: SQLite ORDER BY created_at DESC, processed_at DESC, id DESC LIMIT 1; memory keeps the display_order_cmp maximum")
 
     # ORDER BY key lists of the two listings
     msgs_fn = fn_body(sql_groups, "messages", "fn:messages(sqlite)")
-    orders = []
-    for s in strings(msgs_fn):
-        m = re.search(r"ORDER BY (.*?) LIMIT", s, re.I)
-        if m:
-            keys = [re.sub(r"\s+", " ", k.strip()).lower() for k in m.group(1).split(",")]
-            orders.append(keys)
-    if len(orders) != 2:
+    # per arm of the match on the sort order: the ORDER BY clause of the first SQL text after it (the clause may end the
+    # literal or be followed by LIMIT; it may sit in a constant or in a helper: both are inlined)
+    orders = {}
+    arm_pos = [(m.start(), m.group(1)) for m in re.finditer(r"MessageSortOrder\s*::\s*(\w+)\s*(?:=>|\))", arms_of(msgs_fn))]
+    msgs_arms = arms_of(msgs_fn)
+    for k, (pos, variant) in enumerate(arm_pos):
+        seg = msgs_arms[pos:arm_pos[k + 1][0] if k + 1 < len(arm_pos) else len(msgs_arms)]
+        for lit in strings(seg):
+            m = re.search(r"ORDER BY (.*?)(?: LIMIT\b|$)", lit.strip(), re.I)
+            if m and variant not in orders:
+                orders[variant] = [re.sub(r"\s+", " ", k_.strip()).lower() for k_ in m.group(1).split(",")]
+    if sorted(orders) != ["CreatedAtFirst", "ProcessedAtFirst"]:
         raise Missing("sql:messages:order_by")
+    orders = [orders["CreatedAtFirst"], orders["ProcessedAtFirst"]]
     def keylist(ks): return "[" + ", ".join('"%s"' % k for k in ks) + "]"
     facts["sqlOrderCreatedFirst"] = ("List String", keylist(orders[0]), "groups.rs messages() CreatedAtFirst ORDER BY")
     facts["sqlOrderProcessedFirst"] = ("List String", keylist(orders[1]), "groups.rs messages() ProcessedAtFirst ORDER BY")
@@ -471,22 +704,26 @@ def main():
     # pagination arithmetic
     mem_groups = strip_comments(non_test(read("crates/mdk-memory-storage/src/groups.rs")))
     mem_msgs_fn = fn_body(mem_groups, "messages", "fn:messages(memory)")
-    unchecked_add = bool(re.search(r"\(\s*offset\s*\+\s*limit\s*\)|offset\s*\+\s*limit", mem_msgs_fn))
+    mem_flat = flat(mem_msgs_fn)
+    unchecked_add = bool(re.search(r"\boffset(?:\(\))? \+ [\w.()]*\blimit\b|\blimit(?:\(\))? \+ [\w.()]*\boffset\b", mem_flat))
     boolean("memPageSaturates", (not unchecked_add) and bool(re.search(r"saturating_add|checked_add|skip\(", mem_msgs_fn)),
             "mdk-memory-storage groups.rs messages(): offset + limit cannot overflow")
     sql_w = strip_comments(non_test(read("crates/mdk-sqlite-storage/src/welcomes.rs")))
-    wrapped = bool(re.search(r"offset\s+as\s+i64", msgs_fn)) or bool(re.search(r"offset\s+as\s+i64", fn_body(sql_w, "pending_welcomes", "fn:pending_welcomes(sqlite)")))
+    wrapped = bool(re.search(r"\boffset(?:\(\))? as i64", flat(msgs_fn))) or bool(re.search(r"\boffset(?:\(\))? as i64", flat(fn_body(sql_w, "pending_welcomes", "fn:pending_welcomes(sqlite)"))))
     boolean("sqlOffsetClamped", not wrapped, "mdk-sqlite-storage messages()/pending_welcomes(): offset is not wrapped into a negative i64")
 
     # ---- C04: is the id of a received application message recomputed before it is used? ----------------
     app_rs = strip_comments(non_test(read("crates/mdk-core/src/messages/application.rs")))
     pam = fn_body(app_rs, "process_application_message", "fn:process_application_message")
-    first_use = re.search(r"\brumor\s*\.\s*id\s*\(\s*\)", pam)
+    # the rumor = the local bound to UnsignedEvent::from_json(..), whatever it is called
+    m_rumor = re.search(r"\blet\s+(?:mut\s+)?(\w+)\s*(?::[^=;]+)?=\s*UnsignedEvent\s*::\s*from_json\s*\(", pam)
+    rumor = re.escape(m_rumor.group(1)) if m_rumor else "rumor"
+    first_use = re.search(r"\b" + rumor + r"\s*\.\s*id\s*\(\s*\)", pam)
     if not first_use or "save_message_record" not in pam:
         raise Missing("fact:rumorIdRecomputed")
     before = pam[:first_use.start()]
-    cleared = bool(re.search(r"\brumor\s*\.\s*id\s*=\s*None\s*;", before)) or bool(re.search(r"\brumor\s*\.\s*id\s*\.\s*take\s*\(\s*\)", before))
-    verified = bool(re.search(r"\brumor\s*\.\s*verify_id\s*\(\s*\)", before))
+    cleared = bool(re.search(r"\b" + rumor + r"\s*\.\s*id\s*=\s*None\s*;", before)) or bool(re.search(r"\b" + rumor + r"\s*\.\s*id\s*\.\s*take\s*\(\s*\)", before))
+    verified = bool(re.search(r"\b" + rumor + r"\s*\.\s*verify_id\s*\(\s*\)", before))
     boolean("rumorIdRecomputed", cleared or verified,
             "messages/application.rs process_application_message: the rumor id is cleared (recomputed) or verified before `rumor.id()` is used as the storage key")
 
@@ -633,7 +870,10 @@ def main():
     def strlist(name, ts, prov): facts[name] = ("List (List Nat)", "[" + ", ".join(bytes_lit(t) for t in ts) + "]", prov + " = " + ", ".join(ts))
     const_rs = strip_comments(read("crates/mdk-core/src/constant.rs"))
     util_rs = strip_comments(non_test(read("crates/mdk-core/src/util.rs")))
-    if len(re.findall(r'format!\(\s*"0x\{:04x\}"\s*,\s*u16::from\(\*self\)\s*\)', util_rs)) < 2:
+    # every `fn to_nostr_tag` (helpers inlined, format strings positional) renders u16::from(*self) as "0x{:04x}"
+    tag_fns = [rsnorm.positional_fmt(rsnorm.inline_helpers(f["body"], helper_lookup(util_rs), boundary(), stack=("to_nostr_tag",)))
+               for f in _fn_items(util_rs) if f["name"] == "to_nostr_tag"]
+    if len(tag_fns) < 2 or not all(re.search(r'format!\(\s*"0x\{:04x\}"\s*,\s*u16::from\(\*self\)\s*\)', b) for b in tag_fns):
         raise Missing("codec:to_nostr_tag-format")
     m = re.search(r"NOSTR_GROUP_DATA_EXTENSION_TYPE\s*:\s*u16\s*=\s*(0x[0-9A-Fa-f]+|\d+)\s*;", const_rs)
     if not m:
@@ -647,9 +887,9 @@ def main():
             raise Missing("const:" + cname)
         ids = []
         for it in [x.strip() for x in mm.group(2).split(",") if x.strip()]:
-            mu = re.fullmatch(r"ExtensionType::Unknown\(\s*NOSTR_GROUP_DATA_EXTENSION_TYPE\s*\)", it)
+            mu = re.fullmatch(r"ExtensionType::Unknown\(\s*(NOSTR_GROUP_DATA_EXTENSION_TYPE|0x[0-9A-Fa-f_]+|\d[\d_]*)\s*\)", it)
             mk = re.fullmatch(r"ExtensionType::(\w+)", it)
-            if mu: ids.append(ngd)
+            if mu and (mu.group(1)[0].isalpha() or int(mu.group(1).replace("_", ""), 0) == ngd): ids.append(ngd)
             elif mk and mk.group(1) in EXT_IDS: ids.append(EXT_IDS[mk.group(1)])
             else: raise Missing(f"const:{cname}:item:{it}")
         if len(ids) != int(mm.group(1)):
@@ -664,22 +904,23 @@ def main():
         raise Missing("const:DEFAULT_CIPHERSUITE")
     strfact("kpCiphersuiteTag", "0x%04x" % CS_IDS[m.group(1)], "constant.rs DEFAULT_CIPHERSUITE through NostrTagFormat")
     kp_rs = strip_comments(non_test(read("crates/mdk-core/src/key_packages.rs")))
-    m = re.search(r'if\s*\*version_value\s*!=\s*"([^"]+)"', kp_rs)
+    m = re.search(r'if\s*[*&]*\s*[\w.()]+\s*!=\s*"([^"]+)"\s*\{\s*return\s+Err',
+                  fn_body(kp_rs, "validate_protocol_version_tag", "fn:validate_protocol_version_tag"))
     if not m:
         raise Missing("kp:protocol-version-literal")
     strfact("kpProtocolVersion", m.group(1), "key_packages.rs validate_protocol_version_tag")
-    if not re.search(r"event\.kind\s*!=\s*Kind::MlsKeyPackage", kp_rs):
+    if not re.search(r"\w+\.kind\s*!=\s*Kind::MlsKeyPackage", kp_rs):
         raise Missing("kp:kind-check")
     nat("kindMlsKeyPackage", 443, "nostr Kind::MlsKeyPackage (NIP-EE), checked first by parse_key_package")
     w_rs = strip_comments(non_test(read("crates/mdk-core/src/welcomes.rs")))
-    if not re.search(r"event\.kind\s*!=\s*Kind::MlsWelcome", w_rs):
+    if not re.search(r"\w+\.kind\s*!=\s*Kind::MlsWelcome", w_rs):
         raise Missing("welcome:kind-check")
     nat("kindMlsWelcome", 444, "nostr Kind::MlsWelcome, checked first by validate_welcome_event")
-    m = re.search(r"if\s+tags\.len\(\)\s*<\s*(\d+)", w_rs)
+    m = re.search(r"if [^;{]*?\.len\(\) < (\d+) \{ return Err\(Error::InvalidWelcomeMessage", flat(fn_body(w_rs, "validate_welcome_event", "fn:validate_welcome_event")))
     if not m:
         raise Missing("welcome:min-tags")
     nat("welcomeMinTags", int(m.group(1)), "welcomes.rs validate_welcome_event minimum tag count")
-    m = re.search(r'ContentEncoding::Base64\s*=>\s*"([^"]+)"', util_rs)
+    m = re.search(r'(?:ContentEncoding|Self)::Base64\s*=>\s*"([^"]+)"', arms_of(fn_body(util_rs, "as_tag_value", "fn:as_tag_value")))
     if not m:
         raise Missing("util:encoding-tag-value")
     strfact("encodingTagValue", m.group(1), "util.rs ContentEncoding::as_tag_value")
@@ -699,7 +940,7 @@ def main():
     if not m:
         raise Missing("const:ESCAPE_HATCH_MIME_TYPE")
     strfact("escapeHatchMimeType", m.group(1), "media_processing/validation.rs ESCAPE_HATCH_MIME_TYPE")
-    m = re.search(r"canonical\.len\(\)\s*>\s*(\d+)", fn_body(mv, "validate_mime_type", "fn:validate_mime_type"))
+    m = re.search(r"contains\('/'\)\s*\|\|\s*[^;{]*?\.len\(\)\s*>\s*(\d+)", fn_body(mv, "validate_mime_type", "fn:validate_mime_type"))
     if not m:
         raise Missing("mime:max-len")
     nat("maxMimeLength", int(m.group(1)), "validate_mime_type canonical length bound")
@@ -710,7 +951,7 @@ def main():
     if not m:
         raise Missing("const:DEFAULT_SCHEME_VERSION")
     strfact("defaultSchemeVersion", m.group(1), "encrypted_media/crypto.rs DEFAULT_SCHEME_VERSION")
-    sup = fn_body(cr, "is_scheme_version_supported", "fn:is_scheme_version_supported")
+    sup = arms_of(fn_body(cr, "is_scheme_version_supported", "fn:is_scheme_version_supported"))
     strlist("supportedSchemeVersions", [mm.group(1) for mm in re.finditer(r'"([^"]+)"\s*=>\s*true', sup)], "crypto.rs is_scheme_version_supported")
     ext_rs = strip_comments(non_test(read("crates/mdk-core/src/extension/types.rs")))
     nat("extCurrentVersion", const_usize(ext_rs, "CURRENT_VERSION", "const:CURRENT_VERSION"), "extension/types.rs CURRENT_VERSION")
@@ -721,7 +962,9 @@ def main():
     expect = ["version:u16", "nostr_group_id:[u8;32]", "name:Vec<u8>", "description:Vec<u8>", "admin_pubkeys:Vec<[u8;32]>",
               "relays:Vec<Vec<u8>>", "image_hash:Vec<u8>", "image_key:Vec<u8>", "image_nonce:Vec<u8>", "image_upload_key:Vec<u8>"]
     boolean("extLayoutAsModelled", layout == expect, "extension/types.rs TlsNostrGroupDataExtension field order and types equal Model.Codec.Raw: " + " ".join(layout))
-    boolean("extTrailingBytesChecked", bool(re.search(r"if\s*!\s*remainder\.is_empty\(\)\s*\{\s*return\s+Err", fn_body(ext_rs, "deserialize_bytes", "fn:deserialize_bytes"))),
+    dsb = fn_body(ext_rs, "deserialize_bytes", "fn:deserialize_bytes")
+    m_rem = re.search(r"let\s*\(\s*\w+\s*,\s*(\w+)\s*\)\s*=\s*\w+\s*::\s*tls_deserialize_bytes\s*\(", dsb)
+    boolean("extTrailingBytesChecked", bool(m_rem and re.search(r"if\s*!\s*" + m_rem.group(1) + r"\.is_empty\(\)\s*\{\s*return\s+Err", dsb)),
             "extension/types.rs deserialize_bytes refuses a non-empty remainder")
 
     # ---- codec facts (C15), second batch: strictness of the content parsers, invitation precondition --------
@@ -758,25 +1001,39 @@ def main():
 
     # ---- media facts (C17, media part): scheme label, HKDF context / AAD construction --------------------
     cr2 = strip_comments(non_test(read("crates/mdk-core/src/encrypted_media/crypto.rs")))
-    lab = fn_body(cr2, "get_scheme_label", "fn:get_scheme_label")
-    mlab = re.search(r'"' + re.escape(facts["defaultSchemeVersion"][2].split('= "')[-1].rstrip('"')) + r'"\s*=>\s*Ok\(\s*b"([^"]+)"\s*\)', lab)
+    lab = arms_of(fn_body(cr2, "get_scheme_label", "fn:get_scheme_label"))
+    dsv = re.escape(facts["defaultSchemeVersion"][2].split('= "')[-1].rstrip('"'))
+    mlab = re.search(r'"' + dsv + r'"\s*=>\s*Ok\(\s*(?:b"([^"]+)"|"([^"]+)"\s*\.\s*as_bytes\(\))\s*\)', lab)
     if not mlab:
         raise Missing("media:scheme-label")
-    strfact("mediaSchemeLabel", mlab.group(1), "crypto.rs get_scheme_label(DEFAULT_SCHEME_VERSION)")
-    def pieces(body, var):
-        """the sequence of extend_from_slice / push operations on `var`"""
-        seq = []
-        for m in re.finditer(re.escape(var) + r"\.(extend_from_slice|push)\(\s*(.*?)\s*\)\s*;", body):
-            arg = re.sub(r"\.as_bytes\(\)", "", m.group(2)).replace("&", "").strip()
-            seq.append(("nul" if (m.group(1) == "push" and arg in ("0x00", "0", "0u8")) else arg))
-        return seq
-    ctx_seq = pieces(fn_body(cr2, "build_hkdf_context", "fn:build_hkdf_context"), "context")
-    aad_seq = pieces(fn_body(cr2, "build_aad", "fn:build_aad"), "aad")
-    boolean("mediaContextAsModelled", ctx_seq == ["scheme_label", "nul", "file_hash", "nul", "mime_type", "nul", "filename", "nul", "suffix"],
-            "crypto.rs build_hkdf_context = label 00 hash 00 mime 00 filename 00 suffix: " + " ".join(ctx_seq))
-    boolean("mediaAadAsModelled", aad_seq == ["scheme_label", "nul", "file_hash", "nul", "mime_type", "nul", "filename"],
-            "crypto.rs build_aad = label 00 hash 00 mime 00 filename: " + " ".join(aad_seq))
-    mk = re.search(r'build_hkdf_context\(\s*scheme_label\s*,\s*original_hash\s*,\s*mime_type\s*,\s*filename\s*,\s*b"([^"]+)"\s*\)', cr2)
+    strfact("mediaSchemeLabel", mlab.group(1) or mlab.group(2), "crypto.rs get_scheme_label(DEFAULT_SCHEME_VERSION)")
+    # the byte strings the two builders return, as sequences over their PARAMETER POSITIONS (rsnorm.byte_pieces evaluates
+    # Vec::new + extend_from_slice / push, `[a, b].join(&SEP)`, a call of the other builder), not over names or statement shapes
+    cr_fns = {}
+    for f in _fn_items(cr2):
+        cr_fns.setdefault(f["name"], f)
+    def pieces(fn):
+        if fn not in cr_fns:
+            raise Missing("fn:" + fn)
+        seq = rsnorm.byte_pieces(fn, cr_fns)
+        names = [p_ for p_, _ in cr_fns[fn]["params"]]
+        return [x if x == "nul" else ("p%d" % names.index(x) if x in names else x) for x in (seq or ["?"])]
+    ctx_seq = pieces("build_hkdf_context")
+    aad_seq = pieces("build_aad")
+    boolean("mediaContextAsModelled", ctx_seq == ["p0", "nul", "p1", "nul", "p2", "nul", "p3", "nul", "p4"],
+            "crypto.rs build_hkdf_context(label, hash, mime, filename, suffix) = label 00 hash 00 mime 00 filename 00 suffix: " + " ".join(ctx_seq))
+    boolean("mediaAadAsModelled", aad_seq == ["p0", "nul", "p1", "nul", "p2", "nul", "p3"],
+            "crypto.rs build_aad(label, hash, mime, filename) = label 00 hash 00 mime 00 filename: " + " ".join(aad_seq))
+    # the key derivation hands (label of its scheme-version parameter, its hash / mime / filename parameters, a byte literal)
+    dk = fn_body(cr2, "derive_encryption_key_with_secret", "fn:derive_encryption_key_with_secret")
+    dk_params = [p_ for p_, _ in fn_params(cr2, "derive_encryption_key_with_secret", "fn:derive_encryption_key_with_secret")]
+    dk_call = calls(flat(dk), "build_hkdf_context")          # locals inlined: the label argument is the call that computes it
+    mk = None
+    if dk_call and len(dk_call[0][1]) == 5 and len(dk_params) == 5:
+        a = dk_call[0][1]
+        label_ok = bool(re.fullmatch(r"get_scheme_label\(" + re.escape(dk_params[1]) + r"\)\??", a[0]))
+        if label_ok and a[1:4] == dk_params[2:5]:
+            mk = re.fullmatch(r'b"([^"]+)"', a[4])
     if not mk:
         raise Missing("media:key-suffix")
     strfact("mediaKeySuffix", mk.group(1), "crypto.rs derive_encryption_key_with_secret context suffix")
@@ -804,7 +1061,14 @@ def main():
     psw = fn_body(wl_src, "parse_serialized_welcome", "fn:parse_serialized_welcome")
     boolean("welcomeReplacesOldGroup", bool(re.search(r"\.replace_old_group\s*\(\s*\)", psw)), "mdk-core welcomes.rs parse_serialized_welcome builds the StagedWelcome with .replace_old_group()")
     pw_body = fn_body(wl_src, "process_welcome", "fn:process_welcome")
-    pos_dedup = pw_body.find("find_welcome_by_event_id(&rumor_event_id")
+    # the lookup is keyed by the id OF THE RUMOR: its argument is (a local bound to) `<rumor parameter>.id`
+    rumor_p = param_of_type(wl_src, "process_welcome", r"&\s*(?:nostr::)?UnsignedEvent", "fn:process_welcome")
+    pos_dedup = -1
+    for pos_, a_ in calls(pw_body, r"\.\s*find_welcome_by_event_id"):
+        arg0 = re.sub(r"^&\s*", "", a_[0]) if a_ else ""
+        if re.fullmatch(re.escape(rumor_p) + r"\.id\b.*", arg0) or \
+           re.search(r"\blet\s+" + re.escape(arg0) + r"\s*(?::[^=;]+)?=\s*" + re.escape(rumor_p) + r"\.id\b", pw_body):
+            pos_dedup = pos_; break
     pos_preview = pw_body.find("preview_welcome(")
     boolean("welcomeProcessDedupsByRumorId", 0 <= pos_dedup < pos_preview, "mdk-core welcomes.rs process_welcome returns the stored welcome for a rumor id it already stored, before preview and before any group write")
     def refuses_accepted(fn):
@@ -817,16 +1081,21 @@ def main():
     # ---- media facts (C17, epoch-hint part) ---------------------------------------------------------------
     mgr_rs = strip_comments(non_test(read("crates/mdk-core/src/encrypted_media/manager.rs")))
     dfd = fn_body(mgr_rs, "decrypt_from_download", "fn:decrypt_from_download")
-    arms = re.search(r"Ok\(data\)\s*=>\s*Ok\(data\)\s*,(.*?)=>\s*\{", dfd, re.S)
-    if not arms:
+    # the arms of the match on the hint attempt, or-patterns expanded: Ok passes through, the error variants whose arm
+    # derives the current-epoch key are the fallback set, every other error passes through
+    hint_tbl = [arms_ for scrut, arms_ in rsnorm.match_tables(dfd) if "try_decrypt_with_epoch_hint" in scrut]
+    if not hint_tbl:
         raise Missing("media:decrypt_from_download-arms")
-    fallback_on = sorted(set(re.findall(r"EncryptedMediaError::(\w+)", arms.group(1))))
+    fallback_on = sorted(set(v for pat, body in hint_tbl[0] if "derive_encryption_key(" in body for v in re.findall(r"EncryptedMediaError::(\w+)", pat)))
+    def passes(ctor):
+        return any(re.fullmatch(ctor + r"\((\w+)\)", pat.strip()) and
+                   re.fullmatch(ctor + r"\(" + re.fullmatch(ctor + r"\((\w+)\)", pat.strip()).group(1) + r"\)", body.strip()) for pat, body in hint_tbl[0])
     boolean("mediaFallbackAsModelled", fallback_on == ["DecryptionFailed", "NoExporterSecretForEpoch"] and "derive_encryption_key(" in dfd
-            and bool(re.search(r"Err\(e\)\s*=>\s*Err\(e\)", dfd)),
+            and passes("Ok") and passes("Err"),
             "manager.rs decrypt_from_download: hint first; current-epoch key on " + "|".join(fallback_on) + "; other errors returned")
     th = fn_body(mgr_rs, "try_decrypt_with_epoch_hint", "fn:try_decrypt_with_epoch_hint")
     boolean("mediaHintAsModelled",
-            bool(re.search(r'format!\(\s*"x \{\}"\s*,\s*hex::encode\(reference\.original_hash\)\s*\)', th))
+            bool(re.search(r'format!\(\s*"x \{\}"\s*,\s*hex::encode\(\s*&?\s*\w+\.original_hash\s*\)\s*\)', th))
             and th.find("find_message_epoch_by_tag_content") < th.find("get_group_exporter_secret") < th.find("derive_encryption_key_with_secret") < th.find("decrypt_and_verify")
             and th.find("find_message_epoch_by_tag_content") > 0,
             "manager.rs try_decrypt_with_epoch_hint: epoch of a stored message containing `x <hash>` → stored secret of that epoch → key → decrypt_and_verify")
@@ -834,20 +1103,34 @@ def main():
     boolean("mediaHashCheckedAfterDecrypt", 0 < dav.find("decrypt_data_with_aad") < dav.find("HashVerificationFailed"),
             "manager.rs decrypt_and_verify: AEAD first, then SHA-256 of the plaintext against the reference")
     proc_rs = strip_comments(non_test(read("crates/mdk-core/src/messages/process.rs")))
-    mcall = re.search(r"process_application_message\s*\((.*?)\)\s*[?;]", proc_rs, re.S)
-    if not mcall:
+    # the epoch argument of the call is `<G>.epoch().as_u64()` with G the MlsGroup parameter of the calling function
+    filed = None
+    for f_ in _fn_items(proc_rs):
+        for pos_, a_ in calls(f_["body"], r"(?:self\s*\.\s*)?process_application_message"):
+            gs = [p_ for p_, t_ in f_["params"] if p_ and re.fullmatch(r"&\s*(?:mut\s+)?(?:openmls::\w+::)*MlsGroup", t_)]
+            filed = len(a_) >= 2 and len(gs) == 1 and bool(re.fullmatch(re.escape(gs[0]) + r"\.epoch\(\)\.as_u64\(\)", a_[1]))
+    if filed is None:
         raise Missing("media:process_application_message-call")
-    boolean("appMessageFiledUnderReceiverEpoch", "mls_group.epoch().as_u64()" in mcall.group(1),
+    boolean("appMessageFiledUnderReceiverEpoch", filed,
             "messages/process.rs: process_application_message is given mls_group.epoch() (the RECEIVER's epoch) as the epoch to store")
     # ---- message windows (C02, msgwin engine) ---------------------------------------------------
     msgs_mod = strip_comments(non_test(read("crates/mdk-core/src/messages/mod.rs")))
     nat("epochLookback", const_usize(msgs_mod, "DEFAULT_EPOCH_LOOKBACK", "const:DEFAULT_EPOCH_LOOKBACK"),
         "mdk-core messages/mod.rs DEFAULT_EPOCH_LOOKBACK: past epoch numbers whose stored exporter secret the outer NIP-44 layer tries (not configurable)")
-    win_pat = (r"SenderRatchetConfiguration::new\(\s*self\.config\.out_of_order_tolerance\s*,\s*self\.config\.maximum_forward_distance\s*,?\s*\)"
-               r".*?\.sender_ratchet_configuration\(\s*sender_ratchet_config\s*\).*?\.max_past_epochs\(\s*self\.config\.max_past_epochs\s*\)")
+    # over expressions (locals inlined): one builder statement hands SenderRatchetConfiguration::new(tolerance, distance)
+    # and max_past_epochs, both from self.config, to OpenMLS
+    def windows_handed(src):
+        for f_ in _fn_items(src):
+            if "SenderRatchetConfiguration::new" not in f_["body"]:
+                continue
+            for stmt in rsnorm.split_top(flat(f_["body"]), ";"):
+                if re.search(r"\.sender_ratchet_configuration\(&?SenderRatchetConfiguration::new\(self\.config\.out_of_order_tolerance, self\.config\.maximum_forward_distance\)\)", stmt) \
+                   and re.search(r"\.max_past_epochs\(self\.config\.max_past_epochs\)", stmt):
+                    return True
+        return False
     grp_rs = strip_comments(non_test(read("crates/mdk-core/src/groups.rs")))
     wel_rs = strip_comments(non_test(read("crates/mdk-core/src/welcomes.rs")))
-    boolean("windowsHandedToOpenMls", bool(re.search(win_pat, grp_rs, re.S)) and bool(re.search(win_pat, wel_rs, re.S)),
+    boolean("windowsHandedToOpenMls", windows_handed(grp_rs) and windows_handed(wel_rs),
             "groups.rs create_group and welcomes.rs (join config): SenderRatchetConfiguration::new(config.out_of_order_tolerance, config.maximum_forward_distance) and .max_past_epochs(config.max_past_epochs) are handed to OpenMLS")
     lib_rs = strip_comments(non_test(read("crates/mdk-core/src/lib.rs")))
     mdef = re.search(r"impl\s+Default\s+for\s+MdkConfig\s*\{(.*?)\n\}", lib_rs, re.S)
@@ -861,8 +1144,15 @@ def main():
         nat(lean, int(mm.group(1).replace("_", "")), "mdk-core lib.rs MdkConfig::default()." + field)
     gi_rs = strip_comments(non_test(read("crates/mdk-core/src/extension/group_image.rs")))
     dgi = fn_body(gi_rs, "decrypt_group_image", "fn:decrypt_group_image")
-    i_hash, i_v2, i_v1 = dgi.find("HashVerificationFailed"), dgi.find("IMAGE_ENCRYPTION_CONTEXT_V2"), dgi.find("new_from_slice(image_key.as_ref())")
-    boolean("groupImageDecryptAsModelled", 0 < i_hash < i_v2 < i_v1, "group_image.rs decrypt_group_image: blob hash, then the HKDF (v2) key, then the raw (v1) key")
+    # by what is called with what: the HKDF expansion under the v2 context constant into a buffer, a cipher from that buffer,
+    # then a cipher from the raw key parameter (the Secret<[u8; 32]>)
+    v2ctx = const_lit(gi_rs, "IMAGE_ENCRYPTION_CONTEXT_V2", "const:IMAGE_ENCRYPTION_CONTEXT_V2")
+    key_param = param_of_type(gi_rs, "decrypt_group_image", r"&\s*Secret<\s*\[u8;\s*32\]\s*>", "fn:decrypt_group_image")
+    m_v2 = re.search(r"\.expand\(\s*(?:IMAGE_ENCRYPTION_CONTEXT_V2|" + re.escape(v2ctx) + r")\s*,\s*&mut\s+(\w+)\s*\)", dgi)
+    i_hash, i_v2 = dgi.find("HashVerificationFailed"), (m_v2.start() if m_v2 else -1)
+    i_c2 = at(r"new_from_slice\(\s*&\s*" + re.escape(m_v2.group(1)) + r"\s*\)", dgi) if m_v2 else -1
+    i_v1 = at(r"new_from_slice\(\s*" + re.escape(key_param) + r"\.as_ref\(\)\s*\)", dgi)
+    boolean("groupImageDecryptAsModelled", 0 < i_hash < i_v2 < i_c2 < i_v1, "group_image.rs decrypt_group_image: blob hash, then the HKDF (v2) key, then the raw (v1) key")
 
     # ---- outer layer of process_message (C06 wrap / C08 routing; engine `wrap`) ---------------------------
     wrap_facts(facts, nat, boolean, strlist)
@@ -896,8 +1186,8 @@ def main():
     def state_tables(lean, rel, enum):
         src = strip_comments(non_test(read(rel)))
         vs = enum_variants(src, enum)
-        a_body = impl_fn_body(src, r"\bimpl\s+" + enum + r"\s*\{", "as_str", f"ffi:{enum}:as_str")
-        f_body = impl_fn_body(src, r"\bimpl\s+(?:std::str::)?FromStr\s+for\s+" + enum + r"\b", "from_str", f"ffi:{enum}:from_str")
+        a_body = arms_of(impl_fn_body(src, r"\bimpl\s+" + enum + r"\s*\{", "as_str", f"ffi:{enum}:as_str"))
+        f_body = arms_of(impl_fn_body(src, r"\bimpl\s+(?:std::str::)?FromStr\s+for\s+" + enum + r"\b", "from_str", f"ffi:{enum}:from_str"))
         a = re.findall(r"Self\s*::\s*(\w+)\s*=>\s*\"((?:[^\"\\]|\\.)*)\"", a_body)
         f = re.findall(r"\"((?:[^\"\\]|\\.)*)\"\s*=>\s*Ok\s*\(\s*Self\s*::\s*(\w+)\s*\)", f_body)
         if len(a) != len(vs) or not f or any(v not in vs for v, _ in a) or any(v not in vs for _, v in f):
@@ -915,15 +1205,21 @@ def main():
     state_tables("messageState", "crates/mdk-storage-traits/src/messages/types.rs", "MessageState")
     state_tables("groupState", "crates/mdk-storage-traits/src/groups/types.rs", "GroupState")
     # the binding turns the enums into strings with as_str() and (welcomes only) back with from_str()
-    for pat, fact in [(r"state\s*:\s*g\s*\.\s*state\s*\.\s*as_str\s*\(\s*\)", "ffi:Group.state=as_str"),
-                      (r"state\s*:\s*m\s*\.\s*state\s*\.\s*as_str\s*\(\s*\)", "ffi:Message.state=as_str"),
-                      (r"state\s*:\s*w\s*\.\s*state\s*\.\s*as_str\s*\(\s*\)", "ffi:Welcome.state=as_str"),
-                      (r"WelcomeState\s*::\s*from_str\s*\(\s*&\s*w\s*\.\s*state\s*\)", "ffi:welcome_from_uniffi=from_str")]:
-        if not re.search(pat, ffi_rs):
+    def impl_block(src, head_re, fact):
+        m = re.search(head_re, src)
+        if not m:
+            raise Missing(fact + ":impl")
+        e = rsnorm.match_close(src, m.end() - 1, "{", "}")
+        return src[m.end() - 1:e + 1]
+    for ty, fact in [("Group", "ffi:Group.state=as_str"), ("Message", "ffi:Message.state=as_str"), ("Welcome", "ffi:Welcome.state=as_str")]:
+        blk = impl_block(ffi_rs, r"\bimpl\s+From\s*<\s*[\w:]+\s*>\s*for\s+" + ty + r"\s*\{", fact)
+        if not re.search(r"\bstate\s*:\s*\w+\s*\.\s*state\s*\.\s*as_str\s*\(\s*\)", blk):
             raise Missing(fact)
+    if not re.search(r"WelcomeState\s*::\s*from_str\s*\(\s*&\s*\w+\s*\.\s*state\s*\)", fn_body(ffi_rs, "welcome_from_uniffi", "ffi:welcome_from_uniffi")):
+        raise Missing("ffi:welcome_from_uniffi=from_str")
     so_src = strip_comments(non_test(read("crates/mdk-storage-traits/src/groups/mod.rs")))
     so_vs = enum_variants(so_src, "MessageSortOrder")
-    so_body = fn_body(ffi_rs, "parse_message_sort_order", "ffi:parse_message_sort_order")
+    so_body = arms_of(fn_body(ffi_rs, "parse_message_sort_order", "ffi:parse_message_sort_order"))
     so = re.findall(r"Some\s*\(\s*\"((?:[^\"\\]|\\.)*)\"\s*\)\s*=>\s*Ok\s*\(\s*Some\s*\(\s*MessageSortOrder\s*::\s*(\w+)\s*\)\s*\)", so_body)
     if not so or any(v not in so_vs for _, v in so) or not re.search(r"None\s*=>\s*Ok\s*\(\s*None\s*\)", so_body) \
        or not re.search(r"Some\s*\(\s*\w+\s*\)\s*=>\s*Err", so_body):
@@ -931,20 +1227,22 @@ def main():
     facts["ffiSortOrderTable"] = ("List (List Nat × Nat)", pairs_bytes_nat([(t, so_vs.index(v)) for t, v in so]),
                                   "mdk-uniffi lib.rs parse_message_sort_order: " + ", ".join(f"{t}->{v}" for t, v in so) + "; None->None; anything else refused")
     # which library call each parse helper is (the Lean model of the helper is chosen by this)
-    helper_calls = {"parse_group_id": r"hex\s*::\s*decode\s*\(\s*hex\s*\)", "parse_event_id": r"EventId\s*::\s*from_hex\s*\(\s*hex\s*\)",
-                    "parse_public_key": r"PublicKey\s*::\s*from_hex\s*\(\s*hex\s*\)", "parse_relay_urls": r"RelayUrl\s*::\s*parse\s*\(",
-                    "parse_json": r"serde_json\s*::\s*from_str\s*\(\s*json\s*\)", "parse_tags": r"Tag\s*::\s*parse\s*\(\s*tag_vec\s*\)"}
+    helper_calls = {"parse_group_id": r"hex\s*::\s*decode\s*\(\s*&?\s*@P@\s*\)", "parse_event_id": r"EventId\s*::\s*from_hex\s*\(\s*&?\s*@P@\s*\)",
+                    "parse_public_key": r"PublicKey\s*::\s*from_hex\s*\(\s*&?\s*@P@\s*\)", "parse_relay_urls": r"RelayUrl\s*::\s*parse\s*\(",
+                    "parse_json": r"serde_json\s*::\s*from_str\s*\(\s*&?\s*@P@\s*\)", "parse_tags": r"Tag\s*::\s*parse\s*\(\s*&?\s*\w+\s*\)"}
     for h, pat in helper_calls.items():
+        # P = the helper's first parameter (the text it parses), whatever it is called
+        pat = pat.replace("@P@", re.escape(fn_params(ffi_rs, h, f"ffi:{h}")[0][0] or "?"))
         if not re.search(pat, fn_body(ffi_rs, h, f"ffi:{h}")):
             raise Missing(f"ffi:{h}:callee")
-    boolean("ffiGroupIdAnyLength", bool(re.search(r"GroupId\s*::\s*from_slice\s*\(\s*&\s*bytes\s*\)", fn_body(ffi_rs, "parse_group_id", "ffi:parse_group_id")))
+    boolean("ffiGroupIdAnyLength", bool(re.search(r"GroupId\s*::\s*from_slice\s*\(\s*&\s*\w+\s*\)", fn_body(ffi_rs, "parse_group_id", "ffi:parse_group_id")))
             and not re.search(r"\.len\s*\(\s*\)", fn_body(ffi_rs, "parse_group_id", "ffi:parse_group_id")),
             "mdk-uniffi lib.rs parse_group_id: hex::decode then GroupId::from_slice, no length demand")
     # parse plans: the ordered parse steps of every exported function (codes documented in Model/Ffi.lean `Stage.code`)
     JSON_CTX = {"event JSON": 20, "rumor event JSON": 21, "welcome JSON": 22, "welcome event JSON": 23, "key package event JSON": 24}
     STEP = re.compile(r"parse_group_id\s*\(|parse_event_id\s*\(|parse_public_key\s*\(|parse_relay_urls\s*\(|parse_message_sort_order\s*\(|parse_tags\s*\(|"
                       r"parse_json\s*\([^,()]*,\s*\"([^\"]*)\"\s*\)|welcome_from_uniffi\s*\(|vec_to_array\s*::\s*<\s*(\d+)\s*>\s*\(|"
-                      r"hex\s*::\s*decode\s*\(\s*&\s*w\s*\.\s*nostr_group_id\s*\)|\"Nostr group ID must be 32 bytes\"|WelcomeState\s*::\s*from_str\s*\(|"
+                      r"hex\s*::\s*decode\s*\(\s*&\s*\w+\s*\.\s*nostr_group_id\s*\)|\"Nostr group ID must be 32 bytes\"|WelcomeState\s*::\s*from_str\s*\(|"
                       r"EncryptionConfig\s*::\s*from_slice\s*\(|\"Expected hash must be 32 bytes\"|\"Image key must be 32 bytes\"|\"Image nonce must be 12 bytes\"|"
                       r"self\s*\.\s*lock\s*\(\s*\)")
     def steps(body, fact):
